@@ -281,7 +281,11 @@ func (cmd *mainCmd) Run(args []string) error {
 		filename := sourcePath.Absolute
 		content, err := os.ReadFile(filename)
 		if err != nil {
-			return err
+			// Report the file and move on, like a file that does not
+			// parse: returning here would drop the errors collected
+			// so far.
+			errors = append(errors, err)
+			continue
 		}
 		f, err := parser.ParseFile(fset, filename, content /* src */, parser.AllErrors|parser.ParseComments)
 		if err != nil {
@@ -300,7 +304,8 @@ func (cmd *mainCmd) Run(args []string) error {
 		if !ok {
 			if opts.Print {
 				if _, err := cmd.Stdout.Write(content); err != nil {
-					return err
+					errors = append(errors, err)
+					continue
 				}
 			}
 			log.Printf("%s: skipped", filename)
